@@ -7,7 +7,7 @@ from __future__ import annotations
 import ast
 from typing import Dict, List, Optional, Callable, Set, Tuple
 from .model import FuncInfo, AnalysisError
-from .dataflow import Sym, Poly, cmp_key, _paren
+from .dataflow import Sym, Poly, cmp_key, _paren, ite_atom
 from .analysis import Analysis, FuncAnalysis
 
 
@@ -27,7 +27,9 @@ class State:
 _phi_counter = [0]
 
 
-def join(a: State, b: State) -> State:
+def join(a: State, b: State, cond=None) -> State:
+    """cond: the branch condition when the two states are the arms of one `if` (a = condition true): values that
+    differ become the conditional expression ite(cond, a, b) - the same value id an `x = a if cond else b` gets."""
     if not a.alive:
         return b.copy()
     if not b.alive:
@@ -37,6 +39,8 @@ def join(a: State, b: State) -> State:
         va, vb = a.locals.get(k), b.locals.get(k)
         if va is not None and vb is not None and va == vb:
             out.locals[k] = va
+        elif va is not None and vb is not None and cond is not None:
+            out.locals[k] = ite_atom(cond, va, vb)
         else:
             _phi_counter[0] += 1
             out.locals[k] = Poly.atom(f"phi#{_phi_counter[0]}({k})")
@@ -44,6 +48,8 @@ def join(a: State, b: State) -> State:
         va, vb = a.slots.get(k), b.slots.get(k)
         if va is not None and vb is not None and va == vb:
             out.slots[k] = va
+        elif va is not None and vb is not None and cond is not None and not k.startswith("<"):
+            out.slots[k] = ite_atom(cond, va, vb)
         else:
             _phi_counter[0] += 1
             out.slots[k] = Poly.atom(f"phi#{_phi_counter[0]}({k})")
@@ -246,7 +252,7 @@ class Forward:
             self.st = st_f
             self._block(s.orelse)
             after_f = self.st
-            self.st = join(after_t, after_f)
+            self.st = join(after_t, after_f, c_t)
             if not after_t.alive and not after_f.alive:
                 self.st.alive = False
             elif not after_t.alive:
@@ -303,11 +309,11 @@ class Forward:
 
     def _bind_loop_target(self, target, it: Poly):
         if isinstance(target, ast.Name):
-            self.st.locals[target.id] = Poly.atom(f"{target.id}∈{it.key()}")
+            self.st.locals[target.id] = Poly.atom(f"item∈{it.key()}")
         elif isinstance(target, (ast.Tuple, ast.List)):
             for i, e in enumerate(target.elts):
                 if isinstance(e, ast.Name):
-                    self.st.locals[e.id] = Poly.atom(f"{e.id}∈unpack({it.key()})")
+                    self.st.locals[e.id] = Poly.atom(f"item#{i}∈unpack({it.key()})")
                 else:
                     self._bind_loop_target(e, it)
 
